@@ -15,7 +15,7 @@ from ..core import Part, Violation, guard
 
 core.use_repo()
 
-RULE = ("Hypothesis-generated synthetic rulesets with a PRINCE base list (types A/D/O/K/Y/X and E/W), both all_lower settings; the "
+RULE = ("Hypothesis-generated synthetic rulesets with a PRINCE base list (types A/D/O/K/Y/X and E/W), both all_lower settings; the output file of --output may already exist (longer or shorter) and is then overwritten by a --size run; the "
         "real prince_ling.main() is run in-process unbounded (U), to a file, and with --size N for EVERY N in 1..|U|+1. "
         "Oracle: Counter(U) == model language of (type, value, capitalisation), each derivation once; the model probabilities "
         "along U are non-increasing; file bytes == stdout bytes; size-N output == U[:N]. A CLI part runs prince_ling.py as a "
@@ -97,12 +97,27 @@ def prop(case, rec):
     fn = os.path.join(root, 'out.txt')
     if os.path.exists(fn):
         os.remove(fn)
+    stale = case.get('stale_output', 'longer')
+    if stale:
+        # the output file already exists (an earlier, longer or shorter wordlist written to the same path)
+        with open(fn, 'wb') as f:
+            f.write((''.join(w + '\n' for w in U) * 2 + 'leftover').encode('utf-8') if stale == 'longer' else b'x\n')
+        rec.cls('output_file_existed_' + stale)
     lines2, _ = guard(case, run_prince, root, ['-r', 'T', '-o', fn] + flags)
     data = open(fn, 'rb').read() if os.path.exists(fn) else None
     if lines2:
         raise Violation('file_mode_stdout', f'with --output the words were (also) written to stdout: {lines2[:3]}', case)
     if data != ''.join(w + '\n' for w in U).encode('utf-8'):
         raise Violation('file_differs', f'file output differs from stdout output ({None if data is None else len(data)} bytes vs {len(U)} lines)', case)
+    if len(U) >= 2:
+        # ... and a shorter list (--size) written over the full one just written
+        k = max(1, len(U) // 2)
+        lines3, _ = guard(case, run_prince, root, ['-r', 'T', '-o', fn, '-s', str(k)] + flags)
+        data = open(fn, 'rb').read() if os.path.exists(fn) else None
+        if lines3 or data != ''.join(w + '\n' for w in U[:k]).encode('utf-8'):
+            raise Violation('file_differs', f'--size {k} --output over the file that held the full list: the file has '
+                            f'{None if data is None else data.count(10)} lines ({None if data is None else len(data)} bytes), expected the first {k} '
+                            f'words of the unbounded list; stdout {lines3[:3]}', case)
     # groups of equal probability (for the non-triviality rule)
     inside = set()
     i = 0
@@ -141,7 +156,7 @@ def cases(draw, max_pt=40):
     while len(words) > 60 and len(m['prince']) > 1:
         m['prince'].pop()
         vs, base, words = model_words(m, False)
-    return {'model': m, 'skip_case': draw(st.booleans())}
+    return {'model': m, 'skip_case': draw(st.booleans()), 'stale_output': draw(st.sampled_from([None, 'longer', 'longer', 'shorter']))}
 
 
 def run_main(rec, seed, shard, nshards, tier):
